@@ -72,6 +72,8 @@ func (o pop) term() string {
 		return "PStop"
 	case "abort":
 		return "PAbort"
+	case "dump":
+		return fmt.Sprintf("(PDump %s)", hx.S(o.k))
 	}
 	return "PClose"
 }
@@ -82,6 +84,8 @@ func (o pop) short() string {
 		return "put(" + o.k + "," + o.v + ")"
 	case "get":
 		return "get(" + o.k + ")"
+	case "dump":
+		return "dump(" + o.k + ")"
 	}
 	return o.kind
 }
@@ -189,6 +193,23 @@ func pgExecR(cfg pgCfg, ops []pop, faults []bool, record bool) pgRun {
 				}
 			case "abort":
 				store.Abort(ctx)
+			case "dump":
+				// Dump, Dumper.Next until it yields nil, Dumper.Close
+				d, err := store.Dump(ctx, []byte(op.k))
+				if err != nil {
+					res = pgErr(err)
+				} else {
+					var rows []string
+					for n := 0; n < 1000; n++ {
+						k, v := d.Next(ctx)
+						if k == nil {
+							break
+						}
+						rows = append(rows, fmt.Sprintf("(%s, %s)", hx.B(k), hx.B(v)))
+					}
+					d.Close()
+					res = "(PRows " + hx.List(rows) + ")"
+				}
 			case "close":
 				if err := store.Close(ctx); err != nil {
 					res = pgErr(err)
@@ -269,6 +290,7 @@ func runPg(o opts) error {
 	P := func(k, v string) pop { return pop{kind: "put", k: k, v: v} }
 	G := func(k string) pop { return pop{kind: "get", k: k} }
 	start, stop, abort, cls := pop{kind: "start"}, pop{kind: "stop"}, pop{kind: "abort"}, pop{kind: "close"}
+	D := func(k string) pop { return pop{kind: "dump", k: k} }
 
 	// ---- corpus: one witness per known finding / repaired defect --------------------------
 	// K-C13-stickymulti: after a completed Start..Stop an acknowledged Put sits in an open,
@@ -298,12 +320,32 @@ func runPg(o opts) error {
 	// through to the default-language row and return it without an error, now it reports the fault
 	add(transD, []pop{P("a", "T"), G("a"), G("a")}, faultScript(5), "corpus:trfetch")
 	add(transD, []pop{G("a")}, faultScript(2), "corpus:trfetch-1")
+	// Dump: a transaction of its own, ended exactly once on every path but one; pdb.tx untouched
+	add(user, []pop{P("a", "1"), P("b", "2"), P("ab", "3"), D("a"), D("b"), D("c"), D("")}, nil, "corpus:dump")
+	add(user, []pop{start, P("a", "1"), D("a"), P("b", "1"), stop, D("a")}, nil, "corpus:dump-in-tx")
+	// the Dump query fails inside an explicit transaction: Dump rolls its OWN transaction back,
+	// the explicit one survives and commits both writes at Stop (seeded change C13-m3 breaks this)
+	add(user, []pop{start, P("a", "1"), D("a"), P("b", "1"), stop, D("")}, faultScript(3), "corpus:dump-query-fault-in-tx")
+	add(user, []pop{P("a", "1"), D("a"), G("a")}, faultScript(4), "corpus:dump-query-fault")
+	add(user, []pop{P("a", "1"), D("a"), D("a"), D("a"), D("a")}, faultScript(3, 9, 16, 23), "corpus:dump-begin-rollback-next-scan-faults")
+	// repaired (f3dc6ab, was K-C13-dumpleak): prefix UNKNOWN, Dump returned the ToKey error with its
+	// transaction open; now it rolls it back
+	add(pgCfg{pfx: 0, sid: "s"}, []pop{D("a"), D("a"), start, stop}, nil, "corpus:dumpleak-regression")
+	// K-C13-dumpswallow: the deferred Commit fails / the fetch of the second row fails / its Scan fails:
+	// Dump reports success, the last two silently deliver a truncated dump
+	add(user, []pop{P("a", "1"), P("ab", "2"), D("a")}, faultScript(10), "corpus:dumpswallow-commit")
+	add(user, []pop{P("a", "1"), P("ab", "2"), D("a")}, faultScript(11), "corpus:dumpswallow-next")
+	add(user, []pop{P("a", "1"), P("ab", "2"), D("a")}, faultScript(12), "corpus:dumpswallow-scan")
+	// Dump resets the language of the store (pdb.SetLanguage(nil)): the translated row is out of reach afterwards
+	add(pgCfg{pfx: db.DATATYPE_TEMPLATE, unlock: db.DATATYPE_TEMPLATE, lang: "nor", hasLn: true}, []pop{P("a", "T"), G("a"), D("a"), G("a"), P("a", "U"), G("a")}, nil, "corpus:dump-resets-language")
+	// a session id on an unsessioned type: DecodeKey refuses every row (after the deferred Commit)
+	add(transD, []pop{D("a"), G("a")}, nil, "corpus:dump-decode-error")
 	add(pgCfg{pfx: db.DATATYPE_TEMPLATE, sid: "s"}, []pop{P("a", "1"), G("a")}, nil, "corpus:locked")
 	add(pgCfg{pfx: 0, sid: "s"}, []pop{P("a", "1"), G("a"), start, stop}, nil, "corpus:prefix-unknown")
 	add(pgCfg{pfx: db.DATATYPE_MENU, unlock: db.DATATYPE_MENU, lang: "", hasLn: true}, []pop{P("a", "1"), G("a")}, nil, "corpus:empty-lang-code")
 
 	// ---- exhaustive universe: histories x {no fault, every single, every pair of fault positions} ----
-	alphabet := []pop{P("a", "1"), P("a", "2"), P("b", "1"), G("a"), G("b"), start, stop, abort}
+	alphabet := []pop{P("a", "1"), P("a", "2"), P("b", "1"), G("a"), G("b"), start, stop, abort, D("a")}
 	maxLen := 4
 	if o.tier == "thorough" {
 		maxLen = 5
@@ -391,7 +433,7 @@ func runPg(o opts) error {
 		{pfx: db.DATATYPE_BIN, sid: "s", lang: "nor", hasLn: true},
 		{pfx: 0, sid: "s"}}
 	// keys chosen so that a translated key of one collides with the default key of another
-	advKeys := []string{"a", "b", "a_nor", "c"}
+	advKeys := []string{"a", "b", "a_nor", "c", "ab"}
 	for c := 0; c < advBudget; c++ {
 		r := hx.Rng(o.seed, "pg-adv", c)
 		cfg := cfgs[r.Intn(len(cfgs))]
@@ -413,6 +455,8 @@ func runPg(o opts) error {
 				ops = append(ops, P(advKeys[r.Intn(len(advKeys))], []string{"1", "2", "", "33"}[r.Intn(4)]))
 			case x < 12:
 				ops = append(ops, G(advKeys[r.Intn(len(advKeys))]))
+			case x < 13:
+				ops = append(ops, D([]string{"", "a", "b", "zz"}[r.Intn(4)]))
 			case x < 15:
 				ops = append(ops, start)
 			case x < 17:
